@@ -635,6 +635,17 @@ def oracle_blacklist(h):
             for a in h.addrs:
                 if V(va, 'range', a) != V(vb, 'range', a) or V(va, 'confirmed', a) != V(vb, 'confirmed', a):
                     out.append(viol('C10', i, 'unbl_frame', 'tickets / confirmations of %d changed' % a))
+            if v in V1 + ('gt2',):
+                # every restored holder gets its reservation back out of the base winners, exactly once
+                drop = 0
+                for u in set(users):
+                    if u in h.addrs and (V(vb, 'blacklisted', u) or [0])[0] == 1:
+                        ut = V(va, 'utStatus', u)
+                        if ut:
+                            drop += (ut[3] + ut[4]) if v in V1 else sum(ut[2 + 2 * k] for k in range(ut[1]))
+                wb, wa = V(vb, 'nrWinning')[0], V(va, 'nrWinning')[0]
+                if set(users) <= set(h.addrs) and wb - wa != drop:
+                    out.append(viol('C10', i, 'unbl_reserve', 'restored holders reserve %d tickets but the base winners went from %d to %d' % (drop, wb, wa)))
     return out
 
 
